@@ -1,6 +1,6 @@
 #!/bin/bash
 # usage: tools/runall.sh <tier> <seed...>   - runs every claimed check, prints one line per check
-cd /verif
+cd "$(dirname "$0")/.."
 tier=${1:-quick}; shift
 for seed in "${@:-1}"; do
   for id in $(python3 -c "import json;print(' '.join(c['property_id'] for c in json.load(open('MANIFEST.json'))['checks']))"); do
